@@ -80,7 +80,8 @@ PROPS = {
               "words (D1, D3) with the documented flag values (D2); segment/file streams built from get_path (D4); export walk hands every sample over once and "
               "writes one truncated 'wb' file per `Exported` line with the header's rate (P7, L7); streams rewound before export (R1); the shared construct "
               "objects keep no per-partition state (I6: the allocation table of partition A is never reused for partition B); the file table of a volume is "
-              "scanned over the whole directory stream (L9)." + NOT +
+              "scanned over the whole directory stream (L9). A left/right pair is merged with the L sample first whatever the directory order (P1, P2); every stored AKAI name byte 0..40 decodes, so no file is dropped for its name (B1d: tables and fast decoder)."
+              "" + NOT +
               "byte equality of outputs; that the decoded SAT equals the intended allocation for every table; directory reserved-run handling beyond D1/D3. "
               "Known finding G7 (head-not-lowest chains are truncated) is reported as KNOWN-FINDING.",
               ["the reviewed layout reference (sa/reference/layouts.json) matches the AKAI S1000/S3000 format as documented (140-byte sample header, 150-byte keygroup)"]),
@@ -90,13 +91,15 @@ PROPS = {
               "reference (L1r); loop mode -> window [2*start, 2*(END-start+1)) with END per mode and StreamReversed for exactly the two reverse modes, handler map total "
               "over the 7 modes (L8r, S7); cluster_top slicing and fat_entry chain (D4); FAT decoder terminates, installs links only at END words, raises only for "
               "malformed tables (T1, D1, D3, D2); per-performance collection loops and orphan detection over DISTINCT referenced performances (O1); routines at every "
-              "level (N1); shared construct objects keep no per-parse state (I6)." + NOT + "byte equality; np.isin orphan mask semantics; FAT version handling of directory links."),
+              "level (N1); shared construct objects keep no per-parse state (I6). The orphan scan reads all MAX_NUM_PERFORMANCE directory slots (O1 extent)."
+              "" + NOT + "byte equality; np.isin orphan mask semantics; FAT version handling of directory links."),
     "C03": _p(["L8c", "T1", "P5", "C2", "Q4", "Q2", "Q1", "R1", "P8", "Q5"],
               "Decides the CDDA window clauses as E-AFF terms: MSF polynomial 4500m+75s+f, 2352-byte sectors, per-track offset = 2352*first_index(cur) and "
               "offset+size = 2352*first_index(next) (tiling identity: no gap, no overlap), last track to end_of_file, first INDEX used, walk advances with each emitted "
               "track (L8c, T1-ITERATOR); all-audio cue -> CDDA (C2, Q4); whole-frame truncation with the stream's own frame size (P5); cue field extraction (Q1, Q2); every source stream is rewound before the "
               "pass-through / pipeline choice, so a track is copied from its own start (R1); the sample routine a CDDA image resolves to through its class "
-              "hierarchy is a pass-through - one WAV per track, no L/R merging (P8)." + NOT +
+              "hierarchy is a pass-through - one WAV per track, no L/R merging (P8). The cue text handed to the parser is the whole file (Q5)."
+              "" + NOT +
               "tracks without INDEX lines; equality of bytes."),
     "C04": _p(["L1w", "L2", "L7", "P5", "P6", "L8c"],
               "Decides the RIFF structure clauses: evaluated layouts of RiffStruct / chunk / fmt (16 bytes) / smpl (36 + 24*loops) / loop (24) incl. Prefixed(Int32ul) nesting, "
@@ -109,7 +112,8 @@ PROPS = {
               "combined (P1); by case analysis over the regex group (L|R) the first combine_stereo argument is always the L sample, partner name = stem+separator+other suffix, "
               "merged name = stem (P2); left streams then right streams, channel count = number of streams (P3); frame-major interleave / de-interleave idioms and end-padding (P6); "
               "end-of-data only on an empty trimmed block (P5); per-level hand-over exactly once (P7); names forwarded to the generalized sample (N3, N7); an unreadable tail of either member of a "
-              "pair ends that sample's data instead of aborting the export of the remaining samples (S9)." + NOT +
+              "pair ends that sample's data instead of aborting the export of the remaining samples (S9). An unreadable sibling entry adds nothing and displaces nothing in the volume list (I1)."
+              "" + NOT +
               "which name multisets collide after renaming; unequal-length pairs."),
     "C06": _p(["N1", "N2", "N3", "N4", "N5", "N7", "N9", "P1", "P8", "T1"],
               "Decides confinement and character clauses: every directory class runs the naming routines on the children it hands out (N1) and receives them from its parent (N2); "
@@ -128,7 +132,8 @@ PROPS = {
               "Obligations on the 2 base methods and 9 override methods implementing every view kind: read amount = min(end-position, size) (0 if negative), position advances by exactly "
               "that amount, seek = clamp(base(whence)+offset, 0, end), no subclass overrides read/seek/tell/readall (S5); window and reversed translations incl. alignment errors and the "
               "reshape/flip idiom (S7); address maps as affine terms on every path (S3); split accounting, first/middle/last piece indices, zero-size guard, length check (S4); re-sync "
-              "before every underlying read (S6); container windows: MDX offset = sizeof(header), size = eof - offset; MDF geometry (L2)." + NOT + "equality with a reference model over operation histories; empty views; short reads of the underlying file."),
+              "before every underlying read (S6); container windows: MDX offset = sizeof(header), size = eof - offset; MDF geometry (L2). A chained file view is always built over get_path's list, in chain order (D4)."
+              "" + NOT + "equality with a reference model over operation histories; empty views; short reads of the underlying file."),
     "C09": _p(["C1", "C2", "S8", "S3", "S4p", "L1c", "L2", "Q3", "Q2", "Q1"],
               "Decides: detection cascade order and the stream each probe/parser receives (C1); data-track existential and CDDA branch (C2); every probe restores the borrowed stream's "
               "position on every normal exit (S8); MDF geometry 2352 = 16+2048+288, size = (n // 2352) * 2048 (S3); MDX window offset = sizeof(header), size = eof - offset; container "
@@ -137,7 +142,8 @@ PROPS = {
     "C10": _p(["N6", "N1", "N2", "N4", "N7", "N8", "X1", "T1", "N10", "N11", "I1"],
               "Decides: listing shows safe_name of every child and lookup compares the same attribute through the same normaliser (N6); safe names exist and are de-duplicated at every "
               "level (N1, N2, N7) and are blank-stripped (N4); every lookup failure inside parse_path is converted to ErrorInvalidPath, ls prints it and returns; whole path stripped, "
-              "split on / and \\, trailing empty token dropped (N8); tokeniser loop terminates (T1)." + NOT +
+              "split on / and \\, trailing empty token dropped (N8); tokeniser loop terminates (T1). Every child of a volume is an element: an entry that cannot be realised contributes nothing (I1)."
+              "" + NOT +
               "that normalisation after de-duplication cannot merge two names (case/blank variants); blank names; error-free rendering of every item."),
     "C11": _p(["S6", "S5", "S8", "L1a", "L1r", "D4", "S1", "I6", "I9"],
               "Decides: every site that reads an underlying stream (StreamWrapper.read, SectorStream._read_sector, StreamReversed via read) re-establishes that stream's cursor from its own "
@@ -163,24 +169,28 @@ PROPS = {
               "the four Roland sample references and tolerant lists skip a failing element; Roland records are addressed absolutely (Computed/Pointer/Lazy only) so element i cannot shift "
               "element j (I1, L4); 24-byte file entries / record layouts (L1t, L2); out-of-range start sectors raise the exception the loop swallows (S1, S2); the file table is scanned to the "
               "end of the directory stream (L9); damaged Roland loop points are clamped instead of aborting the export (L8r); every file entry gets a stream object "
-              "of its own - stream factories are not memoised (I9)." + NOT +
+              "of its own - stream factories are not memoised (I9). A failure while realising a Roland sample is of a type the record loops swallow (I11); a present-but-empty context value is returned as it is (N12)."
+              "" + NOT +
               "damage that still parses (a start sector pointing into another file's chain); equality of the other items' audio."),
     "C15": _p(["S4p", "S9", "T1", "L1w", "I1", "I10", "I5", "I4", "P5", "S6", "L8c"],
               "Decides: a short sector read is detected on every returning path of SectorStream._read (S4e) and ends the data stream instead of aborting (S9); partition scan leaves its "
               "loop on the first unparsable header (T1-STREAM-PARSE exits); length prefixes wrap the streamed data (L1w); unreadable files are skipped without stopping the remaining ones "
-              "(I1); whole-frame blocks (P5); the last CDDA track runs to the end of the file as it is (L8c)." + NOT + "prefix equality; which files are reported for which cut."),
+              "(I1); whole-frame blocks (P5); the last CDDA track runs to the end of the file as it is (L8c). The AKAI file table and the volume body are read through the sector stream inside the handlers that turn a failed read into a skipped entry (I10)."
+              "" + NOT + "prefix equality; which files are reported for which cut."),
     "C16": _p(["I2", "I3", "R1", "N2", "N7", "S6", "S8", "N5", "N4", "L8r", "I6", "I7", "I8", "I9", "I12"],
               "Decides: accumulating / position-dependent realisers run once under a flag they always set (I2); no write-capable call outside the export path, inputs opened read-only "
               "(I3, N5); data streams are rewound before every export (R1); both actions install both naming routines before traversing, so what an operation sees does not depend on which "
               "ran first (N2); names recomputed from raw names (N7); no read depends on where an earlier operation left the shared cursor (S6, S8); name sanitising is a function of (raw name, "
               "file/directory flag) only (N4); Roland sample realisation derives its window from the stored stream without replacing it (L8r); construct singletons are not written "
               "to after construction (I6); nothing stored on a (memoised) element is a one-shot iterator that the first traversal would use up (I7); "
-              "users of memoised child / file lists never change them in place (I8)." + NOT +
+              "users of memoised child / file lists never change them in place (I8). Lists handed to exported samples and returned by chain walks are fresh per call and never changed in place by another method (I12)."
+              "" + NOT +
               "equality across operation histories; effects of context mutation in wrap_child_realization."),
     "C17": _p(["Q1", "Q2", "Q3", "Q4", "T1", "Q5"],
               "Decides: the four line regexes are case-insensitive, tolerate leading blanks, match their keyword and capture the documented groups (Q1); blank lines are judged on the fully "
               "stripped text, the next-track test is exactly the TRACK regex, unknown lines inside a track are recorded and skipped, non-FILE lines before FILE are skipped, no FILE -> "
-              "BadCueSheet (Q2); strict ASCII probe with fallback to binary (Q3); mode comparisons via lower() (Q4); the four line-consuming loops terminate (T1-LEN-CONSUME)." + NOT +
+              "BadCueSheet (Q2); strict ASCII probe with fallback to binary (Q3); mode comparisons via lower() (Q4); the four line-consuming loops terminate (T1-LEN-CONSUME). Whole-file cue text (Q5)."
+              "" + NOT +
               "unknown lines between FILE and the first TRACK; equality of resulting images."),
     "C18": _p(["B1", "B2", "B3"],
               "These finite tables and affine pairs ARE the codecs: nine CHAR_MAP entries give two ranges of equal width plus five symbols, 41 pairwise distinct codes in both sets; both "
